@@ -12,8 +12,8 @@ Ob C04.b (generator interleavings): two or three queries (same engine or differe
 engines, disjoint variables) are stepped according to a symbolic schedule word; each
 produces exactly the answers it produces when run alone.
 Ob C04.c (heap disjointness, monitored on every explored path of a and b): the mutable
-objects reachable from the two engine instances are disjoint and yldprolog.engine holds no
-module-level mutable container - the sufficient condition for the thread part of the
+objects reachable from the two engine instances are disjoint and no module-/class-level container
+of yldprolog.engine changes while the engines are used - the sufficient condition for the thread part of the
 statement (pre-emptive thread schedules themselves are outside the solver's reach).
 """
 import types
@@ -57,6 +57,18 @@ def battery(yp):
             if len(rows) > 12:
                 break
         out.append(rows)
+    # meta-call with an atom goal and an extra argument, then an atom goal alone
+    v = yp.variable()
+    rows = []
+    for _ in yp.query('call', [yp.atom('p'), v]):
+        rows.append((to_python(v),))
+        if len(rows) > 12:
+            break
+    out.append(rows)
+    n = 0
+    for _ in yp.query('once', [yp.atom('zero_arity_probe')]):
+        n += 1
+    out.append(n)
     return out
 
 
@@ -108,7 +120,7 @@ def _reachable(root):
     return seen
 
 
-def heap_disjoint(a, b, info):
+def heap_disjoint(a, b, info, before=None):
     with NoTracing():
         ra, rb = _reachable(a), _reachable(b)
         common = [o for k, o in ra.items() if k in rb and not (isinstance(o, (tuple, frozenset)) and not o)]
@@ -116,18 +128,29 @@ def heap_disjoint(a, b, info):
         if common:
             info['reason'] = 'objects shared between two engine instances: %r' % ([type(o).__name__ for o in common][:5],)
             return False
+        now = shared_containers()
+        if before is not None and now != before:
+            changed = [k for k in now if now.get(k) != before.get(k)]
+            info['reason'] = 'module-/class-level container changed while the engines were used: %r' % (changed[:3],)
+            return False
+    return True
+
+
+def shared_containers():
+    """repr of every module-level and class-level dict/list/set of yldprolog.engine: constant tables are fine, but nothing an
+    engine does may change them (that would be state shared by all instances)"""
+    with NoTracing():
+        out = {}
         for name, val in vars(engine).items():
             if name.startswith('__') or name in ('_verif_variables', 'logger'):
                 continue
             if isinstance(val, (dict, list, set)):
-                info['reason'] = 'module-level mutable container yldprolog.engine.%s' % name
-                return False
-        for cls in (engine.YP, engine.Variable, engine.Atom, engine.Functor, engine.Answer):
-            for name, val in vars(cls).items():
-                if isinstance(val, (dict, list, set)):
-                    info['reason'] = 'class-level mutable container %s.%s' % (cls.__name__, name)
-                    return False
-    return True
+                out['engine.' + name] = repr(val)
+            if isinstance(val, type):
+                for n2, v2 in vars(val).items():
+                    if isinstance(v2, (dict, list, set)):
+                        out['%s.%s' % (name, n2)] = repr(v2)
+        return out
 
 
 def make_body_a(info):
@@ -158,6 +181,7 @@ def make_body_a(info):
             if g('r' + e):
                 yp.register_function('u', pyu)
             return yp
+        shared0 = shared_containers()
         try:
             A, B = prepare('A'), prepare('B')
             atomB = B.atom('shared_name')
@@ -234,7 +258,7 @@ def make_body_a(info):
         if B.atom('shared_name') is not atomB:
             ch.note(info, 'B\'s atom lost its identity')
             return ch.VIOLATED
-        if not heap_disjoint(A, B, info):
+        if not heap_disjoint(A, B, info, shared0):
             return ch.VIOLATED
         return ch.HOLDS_NONTRIVIAL if before[0] else ch.HOLDS_TRIVIAL
     return spec, body
@@ -264,6 +288,7 @@ def make_body_b(ngen, nsteps, info):
                 yp.assert_fact(yp.atom('p'), [g('va')])
             yp.assert_fact(yp.atom('nd'), [yp.functor('f', [yp.variable()])])
             return yp
+        shared0 = shared_containers()
         try:
             E0 = prepare(0)
             E1 = E0 if g('same') else prepare(1)
@@ -312,7 +337,10 @@ def make_body_b(ngen, nsteps, info):
             if x._is_bound:
                 ch.note(info, 'variable still bound')
                 return ch.VIOLATED
-        if E1 is not E0 and not heap_disjoint(E0, E1, info):
+        if E1 is not E0 and not heap_disjoint(E0, E1, info, shared0):
+            return ch.VIOLATED
+        if E1 is E0 and shared_containers() != shared0:
+            ch.note(info, 'module-/class-level container changed while queries ran')
             return ch.VIOLATED
         return ch.HOLDS_NONTRIVIAL if any(alone) else ch.HOLDS_TRIVIAL
     return spec, body
